@@ -102,7 +102,10 @@ func genPayload(it WireItem) []byte {
 		// plausible video header followed by garbage / bad NAL lengths
 		hdr := [][]byte{{0x17, 0}, {0x17, 1, 0, 0, 0}, {0x27, 1, 0, 0, 0}, {0x1c, 0}, {0x1c, 1, 0, 0, 0}, {0x90, 'h', 'v', 'c', '1'}, {0x91, 'h', 'v', 'c', '1', 0, 0, 0}, {0x93, 'h', 'v', 'c', '1'},
 			{0x17, 1, 0, 0, 0, 0xff, 0xff, 0xff, 0xff}, {0x17, 1, 0, 0, 0, 0, 0, 0, 5, 0x65}, {0x17, 0, 0, 0, 0, 1, 0x64, 0, 0x1f, 0xff, 0xe1, 0xff, 0xff}, {0x17, 0, 0, 0, 0, 1, 0x64, 0, 0x1f, 0xff, 0xe1, 0, 2, 0x67},
-			{0x1c, 0, 0, 0, 0, 1, 1, 0x60, 0, 0, 0, 0x90, 0, 0, 0, 0, 0, 0x3f, 0xf0, 0, 0xfc, 0xfd, 0xf8, 0xf8, 0, 0, 0x0f, 0xff}, {0x37, 1, 0, 0, 0}, {0x47}, {0xf7, 1}}[it.Shape%16]
+			{0x1c, 0, 0, 0, 0, 1, 1, 0x60, 0, 0, 0, 0x90, 0, 0, 0, 0, 0, 0x3f, 0xf0, 0, 0xfc, 0xfd, 0xf8, 0xf8, 0, 0, 0x0f, 0xff}, {0x37, 1, 0, 0, 0}, {0x47}, {0xf7, 1},
+			// enhanced RTMP: IsExHeader | frame type | packet type, then the FourCC; short bodies for every packet type
+			{0x91, 'h', 'v', 'c', '1'}, {0xa1, 'h', 'v', 'c', '1'}, {0x92, 'h', 'v', 'c', '1'}, {0x94, 'h', 'v', 'c', '1'}, {0x95, 'h', 'v', 'c', '1'},
+			{0x91, 'a', 'v', '0', '1'}, {0x90, 'a', 'v', 'c', '1'}, {0x91, 'h', 'v', 'c'}}[it.Shape%24]
 		return append(append([]byte{}, hdr...), randBytes(it.Seed, n)...)
 	case "audio_hdr":
 		hdr := [][]byte{{0xaf}, {0xaf, 0}, {0xaf, 0, 0x12}, {0xaf, 0, 0xff, 0xff}, {0xaf, 1}, {0xaf, 2}, {0x7f}, {0x8f, 1}, {0xdf, 0}, {0x2f, 1}, {0xaf, 0, 0, 0}, {0x0f}}[it.Shape%12]
